@@ -32,6 +32,26 @@ def gen_one(r, i, tier):
         s = gen.stream(r, spec, n)
     k = r.randint(1, 5)
     chunks = base.random_partition(r, s, k)
+    if i % 12 == 5:
+        # chunks of one kind of value: a partial result that saw only NaN (or only +inf, only -inf) meets
+        # partial results that saw numbers, as left and as right operand
+        leaf = {"k": r.choice(["Minimize", "Maximize", "Average", "Sum", "Deviate"]), "q": {"name": None, "id": 0, "e": ["f", 0]}}
+        wrap = (i // 12) % 3
+        cnt = {"k": "Count"}
+        spec = leaf if wrap == 0 else \
+            {"k": "Bin", "num": 2, "low": 0.0, "high": 2.0, "q": {"name": None, "id": 0, "e": ["f", 1]}, "value": leaf,
+             "under": cnt, "over": cnt, "nan": cnt} if wrap == 1 else \
+            {"k": "Categorize", "q": {"name": None, "id": 0, "e": ["f", 3]}, "value": leaf}
+        cls = base.classify(spec, True)
+        special = [float("nan"), float("inf"), -float("inf")][(i // 36) % 3]
+
+        def row(x):
+            return ([x, 0.5, 0.0, "a", False], r.choice([1.0, 2.0, 0.5]))
+        chunks = [[row(special) for _ in range(r.randint(1, 2))], [row(r.choice([1.0, -0.5, 2.25])) for _ in range(r.randint(1, 3))],
+                  [row(r.choice([0.25, 3.0])) for _ in range(r.randint(0, 2))]]
+        r.shuffle(chunks)
+        s = [x for c_ in chunks for x in c_]
+        k = len(chunks)
     ops = [("new", spec)] + base.fill_ops(0, s)
     for j, c in enumerate(chunks):
         ops.append(("new", spec))
